@@ -94,19 +94,21 @@ type rpc struct {
 	// are configured as initial records (the model's WithInitial… option; hail: resource.WithInitialRecord), the
 	// others go through the trait's creation API. For waste the ids are the record ids in insertion order.
 	build func(r rpc, ids []string, ninit int, ropts []resource.Option) (*instance, error)
+	// Payload: what the records carry besides their key (scenario.Payload); set per scenario before build is called
+	Payload int
 }
 
 var ctx = context.Background()
 
 func rpcs() []rpc {
 	return []rpc{
-		{"electric.ListModes", "gt", "id", "title", []string{"title", "description"}, buildElectric},
-		{"hail.ListHails", "gt", "id", "origin", []string{"origin", "destination"}, buildHail},
-		{"parent.ListChildren", "ge", "name", "parent", nil, buildParent},
-		{"publication.ListPublications", "gt", "id", "media_type", []string{"body", "media_type"}, buildPublication},
-		{"vending.ListConsumables", "gt", "name", "title", []string{"title", "display_name"}, buildConsumables},
-		{"vending.ListInventory", "gt", "consumable", "", []string{"dispensing"}, buildInventory},
-		{"waste.ListWasteRecords", "waste", "id", "area", nil, buildWaste},
+		{"electric.ListModes", "gt", "id", "title", []string{"title", "description"}, buildElectric, 0},
+		{"hail.ListHails", "gt", "id", "origin", []string{"origin", "destination"}, buildHail, 0},
+		{"parent.ListChildren", "ge", "name", "parent", nil, buildParent, 0},
+		{"publication.ListPublications", "gt", "id", "media_type", []string{"body", "media_type"}, buildPublication, 0},
+		{"vending.ListConsumables", "gt", "name", "title", []string{"title", "display_name"}, buildConsumables, 0},
+		{"vending.ListInventory", "gt", "consumable", "", []string{"dispensing"}, buildInventory, 0},
+		{"waste.ListWasteRecords", "waste", "id", "area", nil, buildWaste, 0},
 	}
 }
 
@@ -125,7 +127,7 @@ func (r rpc) rawInit(rr rawRec) resource.Option {
 	case "vending.ListConsumables":
 		return vendingpb.WithConsumablesOption(resource.WithInitialRecord(rr.SID, &traits.Consumable{Name: rr.Key, Title: rr.Key}))
 	case "vending.ListInventory":
-		return vendingpb.WithInventoryOption(resource.WithInitialRecord(rr.SID, &traits.Consumable_Stock{Consumable: rr.Key}))
+		return vendingpb.WithInventoryOption(resource.WithInitialRecord(rr.SID, r.stock(rr.Key)))
 	}
 	panic("no raw initial records on " + r.Name)
 }
@@ -475,14 +477,58 @@ func buildConsumables(r rpc, ids []string, ninit int, ropts []resource.Option) (
 	}, nil
 }
 
+// stock is a stock record of the consumable id carrying the scenario's payload: quantities kept in units of one
+// category (1: used and remaining in litres; 3: remaining in kilograms only) or of two (2: used in litres, remaining
+// in kilograms - no quantity converts into both). What a Dispense does, and whether it fails half-way, depends on them.
+func (r rpc) stock(id string) *traits.Consumable_Stock {
+	q := func(v float32, u traits.Consumable_Unit) *traits.Consumable_Quantity {
+		return &traits.Consumable_Quantity{Amount: v, Unit: u}
+	}
+	st := &traits.Consumable_Stock{Consumable: id}
+	switch r.Payload {
+	case 1:
+		st.Used, st.Remaining = q(1, traits.Consumable_LITER), q(5, traits.Consumable_LITER)
+	case 2:
+		st.Used, st.Remaining = q(1, traits.Consumable_LITER), q(5, traits.Consumable_KILOGRAM)
+	case 3:
+		st.Remaining = q(5, traits.Consumable_KILOGRAM)
+	}
+	return st
+}
+
+func dispenseUnit(u string) traits.Consumable_Unit {
+	switch u {
+	case "l":
+		return traits.Consumable_LITER
+	case "kg":
+		return traits.Consumable_KILOGRAM
+	}
+	return traits.Consumable_UNIT_UNSPECIFIED
+}
+
+// dispenseFails: does a Dispense in unit u of a stock carrying payload pay fail in its unit conversion (the write
+// interceptor then has to leave the stock as it was)? Written from the documentation of DispenseInstantly: the
+// quantity is converted into the units Used and Remaining are kept in; units convert within one category only.
+func dispenseFails(pay int, u string) bool {
+	switch pay {
+	case 1:
+		return u != "l"
+	case 2:
+		return true // litres and kilograms: whatever the unit, one of the two conversions fails (for "l": the second)
+	case 3:
+		return u != "kg"
+	}
+	return false // no quantities kept: nothing to convert
+}
+
 func buildInventory(r rpc, ids []string, ninit int, ropts []resource.Option) (*instance, error) {
 	var initial []*traits.Consumable_Stock
 	for _, id := range ids[:ninit] {
-		initial = append(initial, &traits.Consumable_Stock{Consumable: id})
+		initial = append(initial, r.stock(id))
 	}
 	m := vendingpb.NewModel(append([]resource.Option{vendingpb.WithInitialStock(initial...)}, ropts...)...)
 	for _, id := range ids[ninit:] {
-		if _, err := m.CreateStock(&traits.Consumable_Stock{Consumable: id}); err != nil {
+		if _, err := m.CreateStock(r.stock(id)); err != nil {
 			return nil, fmt.Errorf("CreateStock(%q): %v", id, err)
 		}
 	}
@@ -515,13 +561,13 @@ func buildInventory(r rpc, ids []string, ninit int, ropts []resource.Option) (*i
 				_, err := s.UpdateStock(ctx, &traits.UpdateStockRequest{UpdateMask: r.updateMask(op), Stock: &traits.Consumable_Stock{Consumable: op.ID, Dispensing: true}})
 				return true, op.ID, err
 			case op.Via == "dispense" && op.Kind == "update":
-				_, err := s.Dispense(ctx, &traits.DispenseRequest{Consumable: op.ID, Quantity: &traits.Consumable_Quantity{Amount: 1}})
+				_, err := s.Dispense(ctx, &traits.DispenseRequest{Consumable: op.ID, Quantity: &traits.Consumable_Quantity{Amount: 1, Unit: dispenseUnit(op.Unit)}})
 				return true, op.ID, err
 			}
 			return false, "", nil
 		},
 		add: func(id string) (string, error) {
-			st, err := m.CreateStock(&traits.Consumable_Stock{Consumable: id})
+			st, err := m.CreateStock(r.stock(id))
 			return st.GetConsumable(), err
 		},
 		update: func(op storeOp) error {
@@ -624,6 +670,15 @@ func icptFn(name string) func(string) string {
 		return asciiLower
 	case "upper":
 		return asciiUpper
+	case "ns":
+		// an interceptor that turns the EMPTY id into a key of its own (and is the identity otherwise): whether an
+		// id was provided must be decided before it runs
+		return func(s string) string {
+			if s == "" {
+				return "ns/"
+			}
+			return s
+		}
 	}
 	return func(s string) string { return s }
 }
